@@ -118,8 +118,10 @@ def verifySupportedTokenMint (m : MintIn) : Except String Unit :=
 
 /-- `initialize_pool_v2` (accounts struct constraints, then the handler), for well-formed accounts.
     `keyA`, `keyB` order like the two mint keys; the pool's data and its non-transferable-position flag. -/
-def initializePoolV2 (keyA keyB : Nat) (a b : MintIn) (price ts tierTs fee proto : Nat) : Except String (PoolD × Bool) :=
-  if a.badge = 2 ∨ b.badge = 2 then .error "ConstraintSeeds"
+def initializePoolV2 (keyA keyB : Nat) (a b : MintIn) (price ts tierTs fee proto : Nat) (wrongAddr : Bool := false) :
+    Except String (PoolD × Bool) :=
+  if wrongAddr then .error "ConstraintSeeds"     -- the account offered as the pool is not at the derived address
+  else if a.badge = 2 ∨ b.badge = 2 then .error "ConstraintSeeds"
   else if tierTs ≠ ts then .error "ConstraintRaw"
   else
     match verifySupportedTokenMint a with
@@ -148,6 +150,7 @@ def isValidTradeEnableTimestamp (te : Option Nat) (now : Nat) (permissioned : Bo
 def initializePoolWithAdaptiveFee (keyA keyB : Nat) (a b : MintIn) (price proto now : Nat) (te : Option Nat)
     (authMode : Nat) (permissioned : Bool) (ts fee : Nat) (c : AfConstants) : Except String (PoolD × Bool × Nat) :=
   if authMode = 2 then .error "AccountNotSigner"
+  else if authMode = 3 ∨ authMode = 4 then .error "ConstraintSeeds"   -- pool / Oracle not at the derived address
   else if a.badge = 2 ∨ b.badge = 2 then .error "ConstraintSeeds"
   else if permissioned && authMode = 1 then .error "ConstraintRaw"
   else
